@@ -242,7 +242,11 @@ impl Feig {
                     }
                     return Ok(vec![receipt_no]);
                 }
-                _ => bail!(Error::UnexpectedPacket),
+                sequences::PartialReversalResponse::CompletionData(_) => {
+                    bail!(Error::UnexpectedPacket)
+                }
+                // Status and print packets may precede the reply.
+                _ => {}
             }
         }
 
